@@ -213,6 +213,28 @@ def replace_token_from_lookup(s, lookup):
         return str(untokenize(result).decode('utf-8'))
 
 
+def format_parameter(value, digits=4):
+    """
+    The text of a numeric parameter as it is written into an equation: fixed-point with the given
+    number of digits when that is the value exactly, the full-precision repr otherwise (so that
+    a parameter like 0.65432 is not cut down to 0.6543).
+
+    >>> format_parameter(0.2)
+    '0.2000'
+    >>> format_parameter(0.65432)
+    '0.65432'
+
+    :param value: float
+    :param digits: int
+    :return: str
+    """
+    value = float(value)
+    text = '%0.*f' % (digits, value)
+    if float(text) == value:
+        return text
+    return repr(value)
+
+
 def create_equation_from_terms(terms):
     """
     Create a string equation (right hand side) from a list of terms.
